@@ -35,6 +35,10 @@ const (
 type claimRound struct {
 	XRReady   string `json:"xrReady,omitempty"`   // Ready status the XR controller stored before this claim reconcile: "", True, False, Unknown
 	XRCustom  bool   `json:"xrCustom,omitempty"`  // the XR also carries CustomA=True and lists it in status.claimConditionTypes
+	// Custom, if set, is the status of the XR's claim-targeted CustomA condition ("True", "False", "Unknown" = left
+	// Unknown/FatalError by an XR reconcile that failed fatally without re-asserting it, "Absent" = listed in
+	// status.claimConditionTypes but the XR has no such condition).
+	Custom string `json:"custom,omitempty"`
 	Rebind    int    `json:"rebind,omitempty"`    // before this reconcile somebody rewrites the XR's claimRef: 0 leave, 1 this claim, 2 another claim, 3 remove
 }
 
@@ -63,6 +67,7 @@ func genClaimScenario() *rapid.Generator[claimScenario] {
 			sc.Rounds = append(sc.Rounds, claimRound{
 				XRReady:  rapid.SampledFrom([]string{"", "True", "True", "False", "Unknown"}).Draw(t, "xrready"),
 				XRCustom: rapid.Bool().Draw(t, "xrcustom"),
+				Custom:   rapid.SampledFrom([]string{"", "True", "False", "Unknown", "Unknown", "Absent"}).Draw(t, "custom"),
 				Rebind:   rapid.SampledFrom([]int{0, 0, 0, 0, 1, 2, 3}).Draw(t, "rebind"),
 			})
 		}
@@ -142,8 +147,17 @@ func runClaimScenario(sc claimScenario, rec *verifkit.Recorder, fail func(string
 				conds = append(conds, map[string]any{"type": "Ready", "status": rd.XRReady, "reason": "XRController", "lastTransitionTime": "2024-01-01T00:00:00Z"})
 			}
 			st := map[string]any{}
-			if rd.XRCustom {
-				conds = append(conds, map[string]any{"type": typeCustomA, "status": "True", "reason": customWhy, "lastTransitionTime": "2024-01-01T00:00:00Z"})
+			cst := rd.Custom
+			if cst == "" && rd.XRCustom {
+				cst = "True"
+			}
+			if cst != "" {
+				if cst == "Unknown" {
+					// exactly what the XR reconciler stores for a custom condition a fatally failed pipeline did not re-assert
+					conds = append(conds, map[string]any{"type": typeCustomA, "status": "Unknown", "reason": "FatalError", "message": "A fatal error occurred before the status of this condition could be determined.", "lastTransitionTime": "2024-01-01T00:00:00Z"})
+				} else if cst != "Absent" {
+					conds = append(conds, map[string]any{"type": typeCustomA, "status": cst, "reason": customWhy, "lastTransitionTime": "2024-01-01T00:00:00Z"})
+				}
 				st["claimConditionTypes"] = []any{typeCustomA}
 			}
 			if conds != nil {
@@ -197,6 +211,29 @@ func runClaimScenario(sc claimScenario, rec *verifkit.Recorder, fail func(string
 				rec.NonTrivial(fmt.Sprintf("claim|%s|%d", verifkit.JSON(sc), i), func() any { return map[string]any{"claimScenario": sc, "round": i} })
 			}
 		}
+		// A claim's custom conditions mirror its XR's: after a claim reconcile that reports success, every condition type the
+		// XR lists in status.claimConditionTypes and carries has the same status and reason on the claim - in particular a
+		// condition the XR marked Unknown after a fatal error is Unknown on the claim, not a stale True/False.
+		if statusWritten && after["Synced"].Status == "True" && !foreign && xrAfter != nil {
+			xc := condsOf(xrAfter)
+			types, _ := verifsim.Nested(xrAfter, "status", "claimConditionTypes").([]any)
+			for _, ty := range types {
+				tn, _ := ty.(string)
+				x, has := xc[tn]
+				if !has || tn == "Ready" || tn == "Synced" {
+					continue
+				}
+				if rec != nil {
+					rec.Labelf("claim: claim-targeted custom condition on XR=%s, claim %q->%q", x.Status, before[tn].Status, after[tn].Status)
+					if x.Status == "Unknown" && before[tn].Status != "" && before[tn].Status != "Unknown" {
+						rec.Label("claim: XR custom condition Unknown(FatalError) while the claim carries an older True/False")
+					}
+				}
+				if c := after[tn]; c.Status != x.Status || c.Reason != x.Reason {
+					fail("C05 violated: CLAIM-CUSTOM-NOT-MIRRORED: the claim reconcile reports success but claim condition %s is %q (reason %q) while its XR's claim-targeted condition is %q (reason %q); the claim had %q before\n  scenario %s reconcile %d\n  claim conditions after: %v\n  XR conditions: %v", tn, c.Status, c.Reason, x.Status, x.Reason, before[tn].Status, verifkit.JSON(sc), i, fmtConds(after), fmtConds(xc))
+				}
+			}
+		}
 		if after["Ready"].Status != "True" {
 			continue
 		}
@@ -229,7 +266,7 @@ func TestVerifC05Claim(t *testing.T) {
 
 // TestVerifC05ClaimExhaustive enumerates all single-round claim scenarios.
 func TestVerifC05ClaimExhaustive(t *testing.T) {
-	rec := verifkit.New(t, "C05", "all single-round claim scenarios (both syncers x resourceRef x XR exists x claimRef 4 x earlier Ready 3 x XR Ready 4 x custom 2 x rebind 4)")
+	rec := verifkit.New(t, "C05", "all single-round claim scenarios (both syncers x resourceRef x XR exists x claimRef 4 x earlier Ready 3 x XR Ready 4 x claim-targeted custom condition {none,True,False,Unknown(FatalError),Absent} x rebind 4), each preceded by a reconcile in which the XR's custom condition was True")
 	idx := 0
 	for _, ssa := range []bool{false, true} {
 		for _, hasRef := range []bool{false, true} {
@@ -237,14 +274,14 @@ func TestVerifC05ClaimExhaustive(t *testing.T) {
 				for cr := 0; cr < 4; cr++ {
 					for _, prev := range []string{"", "True", "False"} {
 						for _, xrReady := range []string{"", "True", "False", "Unknown"} {
-							for _, custom := range []bool{false, true} {
+							for _, custom := range []string{"", "True", "False", "Unknown", "Absent"} {
 								for rebind := 0; rebind < 4; rebind++ {
 									idx++
 									if sh, n := verifkit.Shard(); idx%n != sh {
 										continue
 									}
 									sc := claimScenario{SSA: ssa, HasRef: hasRef, XRExists: exists, XRClaimRef: cr, PrevReady: prev, Seed: int64(idx),
-										Rounds: []claimRound{{XRReady: xrReady, XRCustom: custom, Rebind: rebind}}}
+										Rounds: []claimRound{{XRReady: xrReady, Custom: "True"}, {XRReady: xrReady, Custom: custom, Rebind: rebind}}}
 									rec.Eval()
 									runClaimScenario(sc, rec, func(f string, a ...any) { t.Errorf(f, a...) })
 									if t.Failed() {
@@ -287,5 +324,20 @@ func runClaimScenarioTraced(sc claimScenario, tr *readyTrace, fail func(string, 
 		p.Rounds = sc.Rounds[:n]
 		sim := runClaimScenario(p, nil, fail)
 		tr.ready = append(tr.ready, condsOf(sim.Get(claimKey()))["Ready"].Status)
+	}
+}
+
+// TestVerifC05ClaimCustomPinned: a function set CustomA=True for composite-and-claim and the claim copied it; a later
+// XR reconcile failed fatally without re-asserting it (XR: Unknown/FatalError); the next claim reconcile must show Unknown.
+func TestVerifC05ClaimCustomPinned(t *testing.T) {
+	for _, ssa := range []bool{false, true} {
+		for _, ready := range []string{"True", "False"} {
+			sc := claimScenario{SSA: ssa, HasRef: true, XRExists: true, XRClaimRef: 1, Seed: 51, Rounds: []claimRound{
+				{XRReady: ready, Custom: "True"}, {XRReady: ready, Custom: "Unknown"}, {XRReady: ready, Custom: "False"}, {XRReady: ready, Custom: "Unknown"}}}
+			sim := runClaimScenario(sc, nil, func(f string, a ...any) { t.Errorf(f, a...) })
+			if got := condsOf(sim.Get(claimKey()))[typeCustomA].Status; got != "Unknown" {
+				t.Errorf("ssa=%v: after the history True, Unknown(FatalError), False, Unknown(FatalError) on the XR the claim's %s is %q", ssa, typeCustomA, got)
+			}
+		}
 	}
 }
